@@ -37,10 +37,12 @@ class Impl:
         self.converted = set()
         self.scratch = scratch
         self.nmm = 0
+        self.bs = list(BS)
+        self.stack_dim = 0
 
     # ---------------------------------------------------------------- helpers
     def new_leaf(self, version=0):
-        t = torch.full(BS, float(version))
+        t = torch.full(self.bs, float(version))
         no = self.next_obj
         self.next_obj += 1
         self.leaf_no[id(t)] = no
@@ -49,9 +51,25 @@ class Impl:
 
     def node_id(self, obj):
         for i, n in enumerate(self.nodes):
-            if n is obj:
-                return i
+            if n is obj or (n is not None and getattr(n, "__dict__", {}).get("_tensordict") is obj):
+                return i           # (a tensorclass registers its wrapped TensorDict in the lock graph)
         return None
+
+    _TC = {}
+
+    @classmethod
+    def tc_class(cls, fields):
+        """a tensorclass with exactly these fields (created once per field set)"""
+        from typing import Any
+        from tensordict import tensorclass
+        key = tuple(fields)       # field order = storage order = the order `values()` propagates the lock in
+        if key not in cls._TC:
+            base = type("C05H_" + "_".join(key), (), {"__annotations__": {f: Any for f in key}})
+            cls._TC[key] = tensorclass(base)
+        return cls._TC[key]
+
+    def is_tc(self, n):
+        return n is not None and not self.is_lazy(n) and "_tensordict" in getattr(n, "__dict__", {}) and not isinstance(getattr(n, "__dict__", {}).get("_tensordict"), dict)
 
     def is_lazy(self, n):
         from tensordict import LazyStackedTensorDict
@@ -61,6 +79,8 @@ class Impl:
         """[(key, value)] of the private storage"""
         if self.is_lazy(n):
             return [(str(i), m) for i, m in enumerate(n.tensordicts)]
+        if self.is_tc(n):
+            return list(n._tensordict._tensordict.items())
         return list(n._tensordict.items())
 
     def kids(self, n):
@@ -108,10 +128,10 @@ class Impl:
             if n is None:
                 rows.append("dead")
                 continue
-            raw = n._is_locked
+            raw = n._tensordict._is_locked if self.is_tc(n) else n._is_locked
             flag = "t" if raw is True else "f" if raw is False else "n"
             ps = set()
-            for w in n._lock_parents_weakrefs:
+            for w in (n._tensordict if self.is_tc(n) else n)._lock_parents_weakrefs:
                 o = w()
                 if o is None:
                     continue
@@ -119,7 +139,7 @@ class Impl:
                 ps.add(j if j is not None else -1)
             ents = []
             if not self.is_lazy(n):
-                for k, v in n._tensordict.items():
+                for k, v in self.entries(n):
                     if _is_tensor_collection(type(v)):
                         j = self.node_id(v)
                         ents.append([k, "n", j if j is not None else -1])
@@ -154,19 +174,26 @@ class Impl:
         from tensordict import LazyStackedTensorDict, TensorDict
         kind = ev[0]
         if kind == "ctor":
-            _, kids, leaves, lock = ev
+            kids, leaves, lock = ev[1], ev[2], ev[3]
             d = {}
             for k, j in kids:
                 d[k] = self.nodes[j]
             for k, no, ver in leaves:
-                t = torch.full(BS, float(ver))
+                t = torch.full(self.bs, float(ver))
                 self.leaf_no[id(t)] = no
                 self.keep.append(t)
                 d[k] = t
-            self.nodes.append(TensorDict(d, batch_size=BS, device="cpu", lock=lock))
+            # (a tensorclass is built per ordered field tuple; they are immortal and heavy for the collector: keep a small pool)
+            if len(ev) > 4 and ev[4] and d and (tuple(d) in self._TC or len(self._TC) < 24):
+                obj = self.tc_class(list(d))(**d, batch_size=self.bs, device="cpu")
+                if lock:
+                    obj.lock_()
+                self.nodes.append(obj)
+            else:
+                self.nodes.append(TensorDict(d, batch_size=self.bs, device="cpu", lock=lock))
         elif kind == "lazy":
             _, ms, lock = ev
-            self.nodes.append(LazyStackedTensorDict(*[self.nodes[j] for j in ms], stack_dim=0))
+            self.nodes.append(LazyStackedTensorDict(*[self.nodes[j] for j in ms], stack_dim=self.stack_dim))
         elif kind == "lock":
             self.nodes[ev[1]].lock_()
         elif kind == "unlock":
@@ -233,7 +260,7 @@ class Impl:
         kind = eff[0]
         if kind == "addleaf":
             _, k, no = eff
-            t = torch.full(BS, 0.0)
+            t = torch.full(self.bs, 0.0)
             self.leaf_no[id(t)] = no
             self.keep.append(t)
             if meth == "set":
@@ -272,8 +299,8 @@ class Impl:
             td.clear()
         elif kind == "write":
             k = eff[1]
-            cur = td._tensordict.get(k)
-            new = torch.full(BS, float(int(cur.flatten()[0].item()) + 1 if cur is not None else 1))
+            cur = (td._tensordict._tensordict if self.is_tc(td) else td._tensordict).get(k)
+            new = torch.full(self.bs, float(int(cur.flatten()[0].item()) + 1 if cur is not None else 1))
             if meth == "set_":
                 td.set_(k, new)
             elif meth == "update_":
@@ -312,7 +339,8 @@ def cls_name(impl: Impl, i):
 def gen_event(rng, impl: Impl, obj_counter):
     """one random legal event, chosen from the current real state"""
     live = [i for i, n in enumerate(impl.nodes) if n is not None]
-    plain = [i for i in live if not impl.is_lazy(impl.nodes[i])]
+    plain = [i for i in live if not impl.is_lazy(impl.nodes[i]) and not impl.is_tc(impl.nodes[i])]
+    has_tc = lambda i: any(impl.is_tc(x) for x in impl.reach(i))
 
     def fresh_leaves():
         ls = []
@@ -326,7 +354,7 @@ def gen_event(rng, impl: Impl, obj_counter):
         nk = rng.choice([0, 0, 1, 1, 2, 3]) if live else 0
         ks = rng.sample(KID_KEYS, min(nk, len(KID_KEYS)))
         kids = [(k, rng.choice(live)) for k in ks] if live else []
-        return ("ctor", kids, fresh_leaves(), rng.random() < 0.3)
+        return ("ctor", kids, fresh_leaves(), rng.random() < 0.3, rng.random() < 0.2)
     if r < 0.22 and plain:
         ms = [rng.choice(plain) for _ in range(rng.randint(1, 3))]
         ms = list(dict.fromkeys(ms))          # no duplicated member (not modelled)
@@ -346,13 +374,13 @@ def gen_event(rng, impl: Impl, obj_counter):
     if r < 0.75:
         i = rng.choice(live)
         # a memory-mapped leaf unpickles as a second mapping of the same file (shared content): keep pickles to ordinary storage
-        if not any(id(n) in impl.converted for n in impl.reach(i)):
-            return ("pickle", i)
+        if not any(id(n) in impl.converted for n in impl.reach(i)) and not has_tc(i):
+            return ("pickle", i)     # (the tensorclasses of the harness are created dynamically: not picklable)
         return ("lock", i)
     if r < 0.79:
         i = rng.choice(live)
         nodes = impl.reach(i)
-        ok = all(not n.is_locked for n in nodes) and not any(id(n) in impl.converted for n in nodes)
+        ok = all(not n.is_locked for n in nodes) and not any(id(n) in impl.converted for n in nodes) and not has_tc(i)
         if ok and not impl.is_lazy(impl.nodes[i]):
             kind = "memmap" if rng.random() < 0.6 else "share"
             if kind == "memmap" and not impl.is_tree(i):
@@ -364,6 +392,12 @@ def gen_event(rng, impl: Impl, obj_counter):
     # mutators
     i = rng.choice(live)
     n = impl.nodes[i]
+    if impl.is_tc(n):
+        # the fields of a tensorclass are fixed: value writes only
+        keys_l = [k for k, v in impl.entries(n) if isinstance(v, torch.Tensor)]
+        if not keys_l:
+            return ("lock", i)
+        return ("mut", i, "tensorclass", rng.choice(["set_", "update_"]), False, ("write", rng.choice(keys_l)))
     if impl.is_lazy(n):
         cands = [j for j in plain if j < i]
         if not cands:
@@ -389,9 +423,16 @@ def gen_event(rng, impl: Impl, obj_counter):
         # `pop` fetches the value first: on a missing key it raises KeyError before it reaches the lock test
         return ("mut", i, "TensorDict", rng.choice(["del_", "__delitem__", "pop"] if k in keys_all else ["del_", "__delitem__"]), False, ("del", k))
     if q < 0.57:
-        return ("mut", i, "TensorDict", "rename_key_", False, ("rename", rng.choice(keys_all or universe), rng.choice(universe)))
+        # kid keys and leaf keys live in disjoint universes (so the relative order of the tensor-collection entries, which is
+        # what lock propagation depends on, is tracked exactly by the model's `kids` list)
+        k = rng.choice(keys_all or universe)
+        return ("mut", i, "TensorDict", "rename_key_", False, ("rename", k, rng.choice(KID_KEYS if k in KID_KEYS else LEAF_KEYS)))
     if q < 0.65:
-        ks = rng.sample(keys_all, rng.randint(0, len(keys_all))) if keys_all and rng.random() < 0.8 else [rng.choice(universe)]
+        if keys_all and rng.random() < 0.8:
+            chosen = set(rng.sample(keys_all, rng.randint(0, len(keys_all))))
+            ks = [k for k in keys_all if k in chosen]      # `_select` rebuilds the dict in the order of the keys given: pass storage order
+        else:
+            ks = [rng.choice(universe)]
         return ("mut", i, "TensorDict", "select", True, ("keep", *ks))
     if q < 0.75:
         ks = rng.sample(universe, rng.randint(1, 2))
